@@ -15,6 +15,7 @@ NA = {
 TECH = "deterministic simulation: seeded session histories with fault injection, refinement check against an executable reference model"
 CLAIMED = {
  "C01": dict(level="exploration", text="seeded search over mutation histories x alias graphs x hasher configurations x ill-formed statements; every variable compared with a deep-copy reference model after every statement; evidence, not proof", ref="DESIGN.md section 5 (C01)", technique=TECH),
+ "C02": dict(level="exploration", text="seeded workload families W(n): a setup phase builds collections of size n (list, two lists, nested rows, dict with and without default, vector, bytes, struct field holding a list), alias creation/destruction and a failing operator are placed at seed-chosen moments, then n in-place-eligible statements (index assignment, op-assignment incl. append/+=/++=/max/|../||/|./-./insert, pop/remove at the end, struct field forms) run; each family is executed at n, 2n, 4n on the real interpreter and the bytes requested from the global allocator during the mutation phase are measured through a counting allocator; the log-log slope must stay <= 1.35 (a hidden copy per statement gives ~2)", ref="DESIGN.md section 5 (C02)", technique="deterministic simulation: seeded workload histories with alias/fault events, resource observed at the allocator seam, growth-order oracle over three size scales"),
  "C05": dict(level="exploration", text="seeded sessions whose statements are generated programs over the control-flow vocabulary (sequencing, if/else, while, multi-clause for with guards/declarations/pair iteration, yield/into, break/continue with repeat counts and values, return, try/catch/throw with literal patterns, and/or/coalesce, lambdas with defaults and splats, switch, eval, print), closures that escape and are invoked later in seed-chosen order, shadowing, output-sink faults (disk full at a byte offset, short writes, EINTR); value, output bytes, raised/not-raised and the whole session state compared with an independent reference interpreter after every statement", ref="DESIGN.md section 5 (C05)", technique="deterministic simulation: seeded program histories with scheduler-chosen closure invocation and output fault injection, refinement against an executable reference interpreter"),
  "C09": dict(level="exploration", text="seeded histories of every dictionary operation the property lists over a key pool of numerically equal values of different levels and representations (also nested in lists, vectors, dicts), each run under one hasher configuration (per-instance or shared seeds; full, constant or two-bit key hash); every result and every variable compared with a finite-map-over-equality-classes model after every operation", ref="DESIGN.md section 5 (C09)", technique="deterministic simulation: seeded operation histories with the hasher behind a seam (seed and degradation chosen per run), refinement against an executable finite-map model"),
  "C11": dict(level="exploration", text="seeded histories over stream variables from every constructor with small parameters (both step signs, bounds beyond 2^63, empty bases, selection sizes 0..len+1, lazy map/filter, infinite recurrences), optionally dropped by a prefix and aliased, with a seed-chosen order of observations (len, index, slice, list, reverse, first/last, in, truthiness, unpacking, for, take/drop, map, set, passing to a function) interleaved with alias creation and destruction and failing lazy callbacks; every result compared with an immutable-lazy-list model and every stream variable re-materialised after every statement", ref="DESIGN.md section 5 (C11)", technique="deterministic simulation: seeded observation histories over shared/unshared stream cursors with failing-callback injection, refinement against an immutable lazy-list model"),
@@ -22,7 +23,7 @@ CLAIMED = {
  "C14": dict(level="fault_enumeration", text="every global builtin found in the live Env x every tuple of 0..2 arguments from a 60-value pool (thorough: the whole grid; quick: arity 0/1 completely plus seeded samples of arity 2/3), half of the calls inside try/catch, pool values held in session variables, liveness probe in the same session; plus the other profiles' generated histories with ill-formed statements; oracle: value or catchable error, never a panic, untouched variables keep their values", ref="DESIGN.md section 5 (C14)", technique="deterministic simulation: fault enumeration over builtin x argument grid inside persistent sessions, crash capture (catch_unwind), recovery invariant checked after every fault"),
  "C17": dict(level="exploration", text="seeded sessions that define, for generated closed lambdas over the control-flow vocabulary (loops, switch, try, nested lambdas with defaults, operator chains, local declarations), a plain twin L and F := freeze L, then interleave calls of both twins on the same arguments with reassignments of the outer variables they mention (values, list, helper function, user operator, `swap +, *` which also moves precedences); value, output and raised/not-raised of every call compared with a reference model in which freeze = snapshot of the free variables by the evaluator's own scope rules; negative cases (unbound free variable, assignment to an outer variable) must fail at freeze time", ref="DESIGN.md section 5 (C17)", technique="deterministic simulation: seeded schedules of reassignments vs calls of frozen/unfrozen twins with output fault injection, refinement against an executable reference model"),
 }
-PENDING = ["C02","C05","C09","C11","C12","C17"]
+PENDING = []
 import sys
 pending = [p for p in PENDING if p not in CLAIMED]
 hooks = subprocess.check_output(["git","-C","/repo","log","--format=%h %s"]).decode().splitlines()
